@@ -138,6 +138,9 @@ def coord_names(ocfg: dict, targets: list) -> list:
 # ---------------------------------------------------------------------------
 # probes (referenced by dotted name from the pipeline)
 
+JOB = [0]
+
+
 def _get(detector, dotted):
     obj = detector
     for part in dotted.split("."):
@@ -183,7 +186,7 @@ def stamp2(detector, _p=None, **user):
         eff[j] = (ph // 8 ** j) % 8 if ph >= 0 else UNKNOWN
     detector.signal.array = px.level_array(level, shape)
     ev = {"e": "run", "eff": eff, "seenMem": detector._memory.get("seen", -1),
-          "thread": threading.get_ident(), "step": int(detector.pipeline_count)}
+          "thread": threading.get_ident(), "step": int(detector.pipeline_count), "job": p.get("job")}
     pm.SINK.emit(ev)
     if p.get("fault") and list(p["fault"]) == eff:
         raise pm.EXC[p.get("exc", "ValueError")](p.get("msg", "boom"))
@@ -203,10 +206,10 @@ def build(ocfg: dict, variant: int = 0, delay: float = 0.0, exc: str = "ValueErr
     dec_sg = [[j, targets[j]] for j, p in enumerate(ocfg["params"]) if p["sink"] == "signal"]
     msg = "obs-fault " + json.dumps(ocfg.get("fault", []))
     a1 = {"a": 10, "v": [9, 9], "s": "zz", "acc": [1, 2, 3],
-          "_p": {"decode": dec_ph, "delay": delay, "img": False}}
+          "_p": {"decode": dec_ph, "delay": delay, "img": False, "job": JOB[0]}}
     a2 = {"a": 7.0, "w": [8, 8, 8], "g": 70, "h": -1.5, "k": "k0",
           "_p": {"decode": dec_sg, "np": np_, "photon_js": [j for j, _ in dec_ph],
-                 "fault": list(ocfg.get("fault") or []), "exc": exc, "msg": msg}}
+                 "fault": list(ocfg.get("fault") or []), "exc": exc, "msg": msg, "job": JOB[0]}}
     groups = {"photon_collection": [ModelFunction(func="harness.obs.stamp", name="stamp", arguments=a1)],
               "charge_measurement": [ModelFunction(func="harness.obs.stamp2", name="stamp2", arguments=a2)]}
     if extra_models:   # a disabled model that must never run and an observer in another group
@@ -318,6 +321,7 @@ def record_observation(ocfg: dict, variant: int = 0, scheduler: str | None = Non
     """Run the observation; return {ocfg, observed, events, meta}."""
     import dask
     import pyxel
+    JOB[0] += 1        # runs that threads of an earlier (failed) observation still execute are not ours
     pm.SINK.reset()
     meta = {"variant": variant, "scheduler": scheduler, "workers": workers, "exc": exc, "mode": ocfg["mode"],
             "dask": bool(ocfg["dask"]), "force": force, "delay": delay}
@@ -351,7 +355,7 @@ def record_observation(ocfg: dict, variant: int = 0, scheduler: str | None = Non
         if tmpdir:
             import shutil
             shutil.rmtree(tmpdir, ignore_errors=True)
-    runs = [ev for ev in pm.SINK.events if ev["e"] == "run"]
+    runs = [ev for ev in pm.SINK.events if ev["e"] == "run" and ev.get("job", JOB[0]) == JOB[0]]
     for ev in runs:
         events.append({k: v for k, v in ev.items() if k in ("e", "eff", "seenMem")} |
                       ({"never": True} if ev.get("never") else {}))
